@@ -6,6 +6,8 @@ import Astits.Proofs.MuxDemux
 import Astits.Proofs.MuxDemuxNext
 import Astits.Proofs.PSICompleteNext
 import Astits.Spec.RefMux
+import Astits.Proofs.RefMuxDelivers
+import Astits.Props.C13
 namespace Astits.C02b
 open MuxDemux
 
@@ -141,5 +143,473 @@ example : ∃ (d : Demux) (ss' : List PSISection),
     exact ⟨_, _, rfl, rfl⟩
 
 end PSISide
+
+
+/-! # C02, whole-stream form: `NextData` on the bytes of the reference multiplexer delivers `StreamModel.expected`
+
+Helper developments: `Proofs/RefMuxDelivers.lean` and `Proofs/RefMuxDelivers/*` (namespace `Astits.RefMux`).
+
+* `RefMux.UnitWF u` — a well-formed unit of `Spec.RefMux`: 13-bit PID, at least one chunk, chunks of 1..184 bytes adding
+  up to the payload, no transport error, the first-packet adaptation field (if given and used) in delivered form,
+  well-formed and of exactly the fitting size (it may carry a PCR, private data, …, and announce a discontinuity);
+* `chainPk 0 (unitsOn m pid)` / `chainExp 0 (unitsOn m pid)` — the packets / the expected data of the units of `pid`,
+  continuity counters running on modulo 16 (`expectedList m` = these per PID; `m.expected` = its `qsort`);
+* `PESUnit u`, `TableUnit u pf ss ss' stuffing`, `SIUnit u ptr stuff secs` — what a unit carries (PES packet that parses;
+  PAT/PMT sections written by `writePSIData` that round-trip, conformant cut points; DVB SI sections that parse);
+* `collect n d` — the results of up to `n` `NextData` calls stopping at `ErrNoMorePackets`, and whether it was reached;
+  `pidOut pid rs` — the `.ok` data of PID `pid` among results; `demuxOf bytes` — fresh demuxer, `DemuxerOptPacketSize(188)`.
+-/
+
+section WholeStream
+open Astits.Spec Astits.RefMux Astits.PacketRT Astits.SpecEq Astits.PerPid
+
+/-- **D1 — the packets of the model.**  For a stream model whose units are well-formed: every packet is a well-formed
+packet in the demuxer's delivered form that fills exactly 188 bytes, its reference encoding has 188 bytes and parses
+back to it; hence the chunks of `m.bytes` parse to `m.packets`; per PID (whatever the schedule) the packets are the
+packets of the PID's units in order, which form a chain of units: unit-start flag exactly on first packets, continuation
+packets without it, counters running on modulo 16 within and across units, a discontinuity announced at most by the
+first packet of a unit (`ChainOK'`). -/
+theorem refmux_packets (m : StreamModel) (h : ∀ u ∈ m.units, UnitWF u) :
+    (∀ p ∈ m.packets, PacketWF p ∧ PacketCanon p ∧ PacketExact p ∧ (tsEncode p).length = 188 ∧
+      (parsePacket none).val (tsEncode p) = .ok p) ∧
+    ParsesTo (m.packets.map tsEncode) m.packets ∧ m.bytes = (m.packets.map tsEncode).flatten ∧
+    ∀ pid, m.packets.filter (fun p => p.header.pid == pid) = (chainUnits 0 (unitsOn m pid)).flatMap UnitPk.packets ∧
+      ChainOK' [] (chainUnits 0 (unitsOn m pid)) ∧ ∀ U ∈ chainUnits 0 (unitsOn m pid), C02.unitOnPID pid U := by
+  refine ⟨fun p hp => ?_, (chunks_parse m h).1, rfl, fun pid => ?_⟩
+  · obtain ⟨u, hu, cc, hpc⟩ := packets_mem m p hp
+    obtain ⟨h1, h2, h3, _⟩ := packetsOf_wf u cc (h u hu) p hpc
+    exact ⟨h1, h2, h3, tsEncode_length p h1 h2 h3, C11.parse_tsEncode p h1 h2 h3⟩
+  · have hwp := unitsOn_wf m h pid
+    refine ⟨by rw [packets_filter, chainPk_eq 0 _ hwp], chain_ok _ hwp 0 (by omega) [] (Or.inl rfl), ?_⟩
+    intro U hU p hp
+    have : p ∈ chainPk 0 (unitsOn m pid) := by
+      rw [chainPk_eq 0 _ hwp]; exact List.mem_flatMap.mpr ⟨U, hU, hp⟩
+    rw [← packets_filter] at this
+    simpa using (List.mem_filter.mp this).2
+
+/-- **D2 — elementary-stream PIDs.**  `pmR` is the program map the first PAT unit defines (`FirstPAT`: that unit stands
+first in the stream and is read by the first call); no PID delivers a PAT listing a PID outside `pmR` (`hsafe`; see
+`refmux_delivers` where this is discharged from the units).  Then for every elementary-stream PID of `pmR` (not 1, not
+0, not a PMT PID of `pmR`, not in the DVB SI range) whose units carry PES packets that parse (`PESUnit`; for the
+reference encoding `pesEncode h 0 payload` see `pes_unit_of_reference`), the data `NextData` returns on that PID up to
+`ErrNoMorePackets` are the expected data of its units — one PES per unit with its concatenated payload, the first packet
+(payload removed) and the PID, in order, the last unit being delivered by the end-of-stream drain. -/
+theorem refmux_pes_pid (pmR : ProgramMap) (m : StreamModel) (hw : ∀ u ∈ m.units, UnitWF u)
+    (hfirst : FirstPAT pmR m.packets)
+    (hsafe : ∀ pid, ∀ y ∈ pidData pmR pid (chainPk 0 (unitsOn m pid)), PatSafe pmR y)
+    (pid : Nat) (hes : MuxDemux.ESPid pid pmR) (hp : ∀ u ∈ unitsOn m pid, PESUnit u)
+    (n : Nat) (hend : (collect n (demuxOf m.bytes)).2 = true) :
+    pidOut pid (collect n (demuxOf m.bytes)).1 = chainExp 0 (unitsOn m pid) :=
+  pid_delivered pmR m hw hfirst hsafe pid (pes_pid_ok pmR m pid hes hw hp) n hend
+
+/-- a unit carrying the reference encoding of a PES packet without header stuffing is a `PESUnit` (C12 round trip) -/
+theorem pes_unit_of_reference (u : TSUnit) (h : PESHeader) (data : Bytes) (ok : PESRT.PESHeaderOk h)
+    (hl : h.packetLength = pesPacketLengthFor h data.length) (hb : u.payload = Spec.pesEncode h 0 data)
+    (hd : u.data = [{ pes := some { data := data, header := h } }]) (hpsi : u.psi = false) : PESUnit u :=
+  pesUnit_of_encode u h data ok hl hb hd hpsi
+
+/-- **D3 — table PIDs** (PID 0 and the PMT PIDs of `pmR`): units written by `writePSIData` (one or several sections that
+round-trip, 0xFF stuffing, optional payload padding) and cut at conformant points: every section's data once, in order —
+each unit by the call that reads the packet carrying its last section byte; stuffing-only tails parse to nothing. -/
+theorem refmux_table_pid (pmR : ProgramMap) (m : StreamModel) (hw : ∀ u ∈ m.units, UnitWF u)
+    (hfirst : FirstPAT pmR m.packets)
+    (hsafe : ∀ pid, ∀ y ∈ pidData pmR pid (chainPk 0 (unitsOn m pid)), PatSafe pmR y)
+    (pid : Nat) (htab : early pid pmR = true) (hcat : pid ≠ 1) (hT : ∀ u ∈ unitsOn m pid, TableUnitE u)
+    (hs : ∀ u ∈ unitsOn m pid, ∀ y ∈ u.data, PatSafe pmR y)
+    (n : Nat) (hend : (collect n (demuxOf m.bytes)).2 = true) :
+    pidOut pid (collect n (demuxOf m.bytes)).1 = chainExp 0 (unitsOn m pid) :=
+  pid_delivered pmR m hw hfirst hsafe pid (table_pid_ok pmR m pid htab hcat hw hT hs) n hend
+
+/-- a PAT/PMT unit carrying the reference encoding `unitEncode pf (sections ↦ sectionEncode) stuff` of sections on which
+reference encoder and writer agree (`SpecEq.SecAgree`, C13) and that round-trip (C13 `pat_section_rt`, `pmt_section_rt`),
+cut at conformant points (the condition `mkPSIUnitMulti … true` of the generator), is a `TableUnit` -/
+theorem table_unit_of_reference (u : TSUnit) (pf : Nat) (hpf : pf < 256) (ss ss' : List PSISection)
+    (hrt : PSIRT.SectionsRT ss ss') (hag : ∀ s ∈ ss, SpecEq.SecAgree s) (hne : ss ≠ []) (stuff : Nat)
+    (hb : u.payload = Spec.unitEncode pf (ss.map Spec.sectionEncode) stuff)
+    (hcut : ∀ i, 0 < i → i < u.chunks.length → ∀ j, 0 < j → j < ss.length →
+      (u.chunks.take i).sum ≠ 1 + pf + ((ss.map Spec.sectionEncode).take j).flatten.length)
+    (htail : stuff + padLen u ≤ 256)
+    (hdata : ∀ fp, psiToData { pointerField := (pf : Int), sections := ss' } fp u.pid =
+      u.data.map fun d => { d with firstPacket := some fp, pid := u.pid }) :
+    TableUnit u pf ss ss' (List.replicate stuff 0xff) :=
+  tableUnit_of_reference u pf hpf ss ss' hrt hag hne stuff hb hcut htail hdata
+
+/-- the first PAT unit standing first in the schedule gives `FirstPAT` for the map its PATs define -/
+theorem refmux_first_pat (m : StreamModel) (hw : ∀ u ∈ m.units, UnitWF u) (u0 : TSUnit) (r : List TSUnit)
+    (hu : unitsOn m 0 = u0 :: r) (hT : TableUnitE u0) (hne : u0.data ≠ []) (sh : List Nat)
+    (hs : m.schedule = List.replicate u0.chunks.length 0 ++ sh) : FirstPAT (pmLearn u0.data []) m.packets :=
+  firstPAT_of m hw u0 r hu hT hne sh hs
+
+/-- **D4 — DVB SI PIDs**: no early flush; every unit is parsed whole when the next unit of the PID starts, the last one
+at the end of the stream; sections that parse wherever they stand (`SIRT.SecAt`: SDT, NIT, EIT, TOT round trips) -/
+theorem refmux_si_pid (pmR : ProgramMap) (m : StreamModel) (hw : ∀ u ∈ m.units, UnitWF u)
+    (hfirst : FirstPAT pmR m.packets)
+    (hsafe : ∀ pid, ∀ y ∈ pidData pmR pid (chainPk 0 (unitsOn m pid)), PatSafe pmR y)
+    (pid : Nat) (hnp : early pid pmR = false) (hpsi : isPSIPayload pid pmR = true) (hcat : pid ≠ 1)
+    (hS : ∀ u ∈ unitsOn m pid, ∃ ptr stuff secs, SIUnit u ptr stuff secs)
+    (hs : ∀ u ∈ unitsOn m pid, ∀ y ∈ u.data, y.pat = none)
+    (n : Nat) (hend : (collect n (demuxOf m.bytes)).2 = true) :
+    pidOut pid (collect n (demuxOf m.bytes)).1 = chainExp 0 (unitsOn m pid) :=
+  pid_delivered pmR m hw hfirst hsafe pid (si_pid_ok pmR m pid hnp hpsi hcat hw hS hs) n hend
+
+/-- **D5 — the whole stream.**  `StreamWF m u0 r sh`: every unit is well-formed and of the kind its PID requires under the
+program map `pmR` defined by the first PAT unit `u0` (PAT/PMT unit on PID 0 and the PMT PIDs, its PATs listing PMT PIDs of
+`pmR` only; DVB SI unit on the other PSI PIDs; PES unit on elementary-stream PIDs; nothing on PID 1), `u0` announces at
+least one table, and the schedule starts with the packets of `u0` — arbitrary interleaving otherwise.  Then the
+`NextData` calls on `m.bytes` reach `ErrNoMorePackets` after finitely many calls `n`; each of the calls before returns a
+datum (no error); for every PID the data returned are the expected data of its units, in order; every entry of
+`m.expected` is exactly what was returned on its PID, and nothing is returned on any other PID. -/
+theorem refmux_whole_stream (m : StreamModel) (u0 : TSUnit) (r : List TSUnit) (sh : List Nat) (h : StreamWF m u0 r sh) :
+    ∃ n, (collect n (demuxOf m.bytes)).2 = true ∧
+      (∀ r ∈ (collect n (demuxOf m.bytes)).1, ∃ x, r = .ok x) ∧
+      (∀ pid, pidOut pid (collect n (demuxOf m.bytes)).1 = chainExp 0 (unitsOn m pid)) ∧
+      (∀ e ∈ m.expected, pidOut e.1 (collect n (demuxOf m.bytes)).1 = e.2) ∧
+      (∀ pid, pid ∉ m.expected.map (·.1) → pidOut pid (collect n (demuxOf m.bytes)).1 = []) :=
+  refmux_delivers m u0 r sh h
+
+open Astits.MuxDemux Astits.PSIComplete Astits.PSIRT
+
+/-! ### non-vacuity: a stream with a two-section PAT, a PMT, a TOT and two PES PIDs -/
+
+/-- the PAT unit of `exTS`: two sections (16 and 20 bytes), three stuffing bytes, four packets -/
+def xPAT : TSUnit :=
+  { exTS with data := [{ pat := some { programs := [{ programMapID := 0x1000, programNumber := 1 }], transportStreamID := 7 } },
+      { pat := some { programs := [{ programMapID := 0x1001, programNumber := 2 }, { programMapID := 0x1002, programNumber := 3 }], transportStreamID := 7 } }] }
+
+def xPmtData : PMTData :=
+  { elementaryStreams := [{ elementaryPID := 0x100, streamType := 0x1b }, { elementaryPID := 0x101, streamType := 0x0f }], pcrPID := 0x100, programNumber := 1 }
+
+def xPmtSec : PSISection :=
+  mkPMTSection 0 { sectionLength := 1, sectionSyntaxIndicator := true, tableID := 2 }
+    { currentNextIndicator := true, tableIDExtension := 1, versionNumber := 5 } xPmtData
+
+/-- PMT on PID 0x1000: pointer_field 0, one section, two stuffing bytes; first chunk = the pointer_field alone; the last
+packet padded with 0xFF instead of adaptation-field stuffing -/
+def xPMT : TSUnit :=
+  { pid := 0x1000, payload := [0] ++ secBytes xPmtSec ++ [0xff, 0xff], data := [{ pmt := some xPmtData }], psi := true,
+    chunks := [1, 20, 8], padPayload := true }
+
+
+def xTotSec : Bytes × PSISection :=
+  (Spec.mkSec 0x73 false true (SIRT.totBodyE writeDescriptor C13.exTOT) true,
+   SIRT.delivered 0x73 false true none { tot := some C13.exTOT } (SIRT.totBodyE writeDescriptor C13.exTOT))
+
+/-- TOT on PID 0x14: pointer_field 1, one section, two stuffing bytes, a single packet -/
+def xTOT : TSUnit :=
+  { pid := 0x14, payload := Spec.unitEncode 1 [xTotSec.1] 2, data := [{ tot := some C13.exTOT }], psi := true,
+    chunks := [(Spec.unitEncode 1 [xTotSec.1] 2).length] }
+
+def xAudioHdr (n : Nat) : PESHeader :=
+  { streamID := 0xc0, optionalHeader := some C12.exAudioOpt,
+    packetLength := pesPacketLengthFor { streamID := 0xc0, optionalHeader := some C12.exAudioOpt } n }
+
+def xDataA : Bytes := (List.range 300).map (· % 251)
+def xDataB : Bytes := [1, 2, 3, 4, 5]
+def xDataC : Bytes := List.replicate 200 0xcd
+
+/-- PES on PID 0x100, three packets, the first with a PCR in its adaptation field -/
+def xPesA : TSUnit :=
+  { pid := 0x100, payload := Spec.pesEncode (xAudioHdr 300) 0 xDataA,
+    data := [{ pes := some { data := xDataA, header := xAudioHdr 300 } }], psi := false,
+    chunks := [10, 184, 120], firstAF := some exFirstAF }
+/-- adaptation field announcing a discontinuity: adaptation_field_length 164 = 183 - 19 -/
+def xDIAF : PacketAdaptationField := { length := 164, stuffingLength := 163, discontinuityIndicator := true }
+
+/-- a single packet whose adaptation field announces a discontinuity at the unit start -/
+def xPesB : TSUnit :=
+  { pid := 0x100, payload := Spec.pesEncode (xAudioHdr 5) 0 xDataB,
+    data := [{ pes := some { data := xDataB, header := xAudioHdr 5 } }], psi := false, chunks := [19],
+    firstAF := some xDIAF }
+def xPadHdr : PESHeader := { streamID := 0xbe, optionalHeader := none, packetLength := 200 }
+def xPesC : TSUnit :=
+  { pid := 0x101, payload := Spec.pesEncode xPadHdr 0 xDataC,
+    data := [{ pes := some { data := xDataC, header := xPadHdr } }], psi := false, chunks := [183, 23],
+    firstAF := some oneByteAF }
+
+def xStream : StreamModel :=
+  { units := [xPAT, xPesA, xPMT, xPesC, xTOT, xPesB],
+    schedule := [0, 0, 0, 0, 0x100, 0x1000, 0x101, 0x100, 0x14, 0x1000, 0x100, 0x101, 0x1000, 0x100] }
+
+
+theorem xPAT_wf : UnitWF xPAT := ⟨by decide, by decide, by decide, by decide +kernel, rfl, True.intro⟩
+theorem xPMT_wf : UnitWF xPMT := ⟨by decide, by decide, by decide, by decide +kernel, rfl, True.intro⟩
+theorem xTOT_wf : UnitWF xTOT := ⟨by decide, by decide, by decide +kernel, by decide +kernel, rfl, True.intro⟩
+theorem xPesA_wf : UnitWF xPesA := by
+  refine ⟨by decide, by decide, by decide, by decide +kernel, rfl, ?_⟩
+  intro _
+  exact Or.inr ⟨rfl, exFirstAF_wf, exFirstAF_canon, by decide⟩
+theorem xDIAF_wf : AFWF xDIAF :=
+  ⟨fun h => absurd h (by decide), fun h => absurd h (by decide), fun h => absurd h (by decide), fun h => absurd h (by decide),
+   fun h => absurd h (by decide)⟩
+
+theorem xDIAF_canon : AFCanon xDIAF := by
+  refine ⟨by decide, by decide, by decide, by decide, by decide, by decide, by decide, ?_⟩
+  intro e he; cases he
+
+theorem xPesB_wf : UnitWF xPesB := by
+  refine ⟨by decide, by decide, by decide, by decide +kernel, rfl, ?_⟩
+  intro _
+  exact Or.inr ⟨rfl, xDIAF_wf, xDIAF_canon, by decide⟩
+theorem xPesC_wf : UnitWF xPesC := by
+  refine ⟨by decide, by decide, by decide, by decide +kernel, rfl, ?_⟩
+  intro _
+  exact Or.inl ⟨rfl, rfl, rfl⟩
+
+theorem xSyntaxOk (e v : Nat) (he : e < 65536) (hv : v < 32) :
+    SyntaxHeaderOk { currentNextIndicator := true, tableIDExtension := e, versionNumber := v } :=
+  ⟨he, hv, by simp, by simp⟩
+
+theorem xPAT_table : TableUnitE xPAT := by
+  have hsh := xSyntaxOk 7 3 (by decide) (by decide)
+  have r1 := pat_section_rt 0 { sectionLength := 1, sectionSyntaxIndicator := true, tableID := 0 } _
+    { programs := [{ programMapID := 0x1000, programNumber := 1 }], transportStreamID := 7 } rfl (by decide) hsh ⟨by decide, by decide⟩
+  have r2 := pat_section_rt 0 { sectionLength := 1, sectionSyntaxIndicator := true, tableID := 0 } _
+    { programs := [{ programMapID := 0x1001, programNumber := 2 }, { programMapID := 0x1002, programNumber := 3 }], transportStreamID := 7 }
+    rfl (by decide) hsh ⟨by decide, by decide⟩
+  have hrt : SectionsRT [C02.exSec1, C02.exSec2] _ := .cons r1 (.cons r2 .nil)
+  refine ⟨0, [C02.exSec1, C02.exSec2], _, [0xff, 0xff, 0xff],
+    ⟨by decide, hrt, by simp, by simp, _, writePSIData_bytes 0 (by decide) _ _ hrt, by decide +kernel⟩, ?_, by decide, ?_⟩
+  · intro i hi hil j hj hjl
+    have hj1 : j = 1 := by simp at hjl; omega
+    subst hj1
+    have : i = 1 ∨ i = 2 ∨ i = 3 := by simp [xPAT, exTS] at hil; omega
+    rcases this with rfl | rfl | rfl <;> decide +kernel
+  · intro fp
+    rw [psiToData_cons_pat _ _ _ _ _ _ _ _ rfl, psiToData_cons_pat _ _ _ _ _ _ _ _ rfl]
+    rfl
+
+theorem xPmtData_ok : PMTOk xPmtData := by
+  refine ⟨by decide, fun x hx => (by cases hx), ?_, by decide⟩
+  intro es hes
+  simp [xPmtData] at hes
+  rcases hes with rfl | rfl
+  · exact ⟨by decide, by decide, fun x hx => (by cases hx), by decide⟩
+  · exact ⟨by decide, by decide, fun x hx => (by cases hx), by decide⟩
+
+theorem xPMT_table : TableUnitE xPMT := by
+  have hsh := xSyntaxOk 1 5 (by decide) (by decide)
+  have r1 := pmt_section_rt 0 { sectionLength := 1, sectionSyntaxIndicator := true, tableID := 2 } _ xPmtData rfl (by decide)
+    hsh xPmtData_ok
+  have hrt : SectionsRT [xPmtSec] _ := .cons r1 .nil
+  refine ⟨0, [xPmtSec], _, [0xff, 0xff],
+    ⟨by decide, hrt, by simp, by simp, _, writePSIData_bytes 0 (by decide) _ _ hrt, by simp [xPMT]⟩, ?_, by decide, ?_⟩
+  · intro i _ _ j hj hjl
+    simp at hjl; omega
+  · intro fp
+    rw [psiToData_cons_pmt _ _ _ _ _ _ _ _ rfl]
+    rfl
+
+theorem xTOT_si : SIUnit xTOT 1 2 [xTotSec] := by
+  refine ⟨rfl, ?_, ?_⟩
+  · intro p hp
+    simp only [List.mem_cons, List.not_mem_nil, or_false] at hp
+    subst hp
+    exact SIRT.tot_secAt writeDescriptor SIRT.encPos_writer false true C13.exTOT (C13.exTOT_wf.ok SIRT.encWF_writer)
+  · intro fp
+    simp [psiToData, xTotSec, SIRT.delivered, SIRT.deliveredHeader, isEIT, xTOT]
+
+theorem xAudioHdr_ok (n : Nat) : PESRT.PESHeaderOk (xAudioHdr n) := by
+  refine ⟨by simp [xAudioHdr], ?_⟩
+  rw [if_pos (by simp [xAudioHdr]; decide)]
+  exact ⟨C12.exAudioOpt, rfl, C12.exAudioOpt_ok⟩
+
+theorem xPadHdr_ok : PESRT.PESHeaderOk xPadHdr := by
+  refine ⟨by decide, ?_⟩
+  rw [if_neg (by decide)]
+  rfl
+
+theorem xPesA_pes : PESUnit xPesA := pesUnit_of_encode xPesA (xAudioHdr 300) xDataA (xAudioHdr_ok 300) (by decide +kernel) rfl rfl rfl
+theorem xPesB_pes : PESUnit xPesB := pesUnit_of_encode xPesB (xAudioHdr 5) xDataB (xAudioHdr_ok 5) (by decide +kernel) rfl rfl rfl
+theorem xPesC_pes : PESUnit xPesC := pesUnit_of_encode xPesC xPadHdr xDataC xPadHdr_ok (by decide +kernel) rfl rfl rfl
+
+theorem xStream_wf : ∀ u ∈ xStream.units, UnitWF u := by
+  intro u hu
+  simp only [xStream, List.mem_cons, List.not_mem_nil, or_false] at hu
+  rcases hu with rfl | rfl | rfl | rfl | rfl | rfl
+  · exact xPAT_wf
+  · exact xPesA_wf
+  · exact xPMT_wf
+  · exact xPesC_wf
+  · exact xTOT_wf
+  · exact xPesB_wf
+
+/-- the program map the PAT unit defines -/
+theorem xPmR : pmLearn xPAT.data [] = [(0x1000, 1), (0x1001, 2), (0x1002, 3)] := by decide +kernel
+
+/-- the PATs of the PAT unit list PMT PIDs of the map they define -/
+theorem xPAT_safe : ∀ y ∈ xPAT.data, PatSafe [(0x1000, 1), (0x1001, 2), (0x1002, 3)] y := by
+  intro y hy pat hp pg hpg
+  simp only [xPAT, List.mem_cons, List.not_mem_nil, or_false] at hy
+  rcases hy with rfl | rfl
+  · simp only [Option.some.injEq] at hp; subst hp
+    simp only [List.mem_cons, List.not_mem_nil, or_false] at hpg; subst hpg; rfl
+  · simp only [Option.some.injEq] at hp; subst hp
+    simp only [List.mem_cons, List.not_mem_nil, or_false] at hpg
+    rcases hpg with rfl | rfl <;> rfl
+
+theorem xStreamWF : StreamWF xStream xPAT []
+    [0x100, 0x1000, 0x101, 0x100, 0x14, 0x1000, 0x100, 0x101, 0x1000, 0x100] := by
+  refine ⟨xStream_wf, rfl, rfl, by simp [xPAT], ?_⟩
+  rw [xPmR]
+  intro u hu
+  simp only [xStream, List.mem_cons, List.not_mem_nil, or_false] at hu
+  rcases hu with rfl | rfl | rfl | rfl | rfl | rfl
+  · exact Or.inl ⟨rfl, by decide, xPAT_table, xPAT_safe⟩
+  · exact Or.inr (Or.inr ⟨⟨by decide, by decide +kernel⟩, xPesA_pes⟩)
+  · refine Or.inl ⟨by decide +kernel, by decide, xPMT_table, ?_⟩
+    intro y hy pat hp
+    simp only [xPMT, List.mem_cons, List.not_mem_nil, or_false] at hy
+    subst hy; cases hp
+  · exact Or.inr (Or.inr ⟨⟨by decide, by decide +kernel⟩, xPesC_pes⟩)
+  · refine Or.inr (Or.inl ⟨by decide +kernel, by decide +kernel, by decide, ⟨1, 2, [xTotSec], xTOT_si⟩, ?_⟩)
+    intro y hy
+    simp only [xTOT, List.mem_cons, List.not_mem_nil, or_false] at hy
+    subst hy; rfl
+  · exact Or.inr (Or.inr ⟨⟨by decide, by decide +kernel⟩, xPesB_pes⟩)
+
+/-- the hypotheses of the whole-stream theorem are satisfiable: the conclusion for `xStream` -/
+example : ∃ n, (collect n (demuxOf xStream.bytes)).2 = true ∧
+    (∀ r ∈ (collect n (demuxOf xStream.bytes)).1, ∃ x, r = .ok x) ∧
+    (∀ pid, pidOut pid (collect n (demuxOf xStream.bytes)).1 = chainExp 0 (unitsOn xStream pid)) ∧
+    (∀ e ∈ xStream.expected, pidOut e.1 (collect n (demuxOf xStream.bytes)).1 = e.2) ∧
+    (∀ pid, pid ∉ xStream.expected.map (·.1) → pidOut pid (collect n (demuxOf xStream.bytes)).1 = []) :=
+  refmux_whole_stream xStream xPAT [] _ xStreamWF
+
+/-- … evaluated: 14 packets; 7 data in 7 calls, then `ErrNoMorePackets`: PAT ×2, PMT, PES A (delivered when PES B starts),
+PES C, TOT and PES B (the last three by the end-of-stream drain, PIDs in increasing order) -/
+example : (chunksOf xStream).length = 14 ∧ (collect 8 (demuxOf xStream.bytes)).2 = true ∧
+    (collect 8 (demuxOf xStream.bytes)).1.map (fun r => match r with | .ok x => x.pid | _ => 99999) =
+      [0, 0, 0x1000, 0x100, 0x14, 0x100, 0x101] ∧
+    (expectedList xStream).map (fun e => (e.1, e.2.length)) = [(0, 2), (0x100, 2), (0x1000, 1), (0x101, 1), (0x14, 1)] := by
+  decide +kernel
+
+/-! #### the per-PID theorems D1–D4 on `xStream` -/
+
+example := refmux_packets xStream xStream_wf
+
+theorem xStreamOK : StreamOK (pmLearn xPAT.data []) xStream := streamOK_of_wf xStream xPAT [] _ xStreamWF
+
+theorem xSafe : ∀ pid, ∀ y ∈ pidData (pmLearn xPAT.data []) pid (chainPk 0 (unitsOn xStream pid)), PatSafe (pmLearn xPAT.data []) y := by
+  intro pid y hy
+  have h := pidOK_all _ xStream xStreamOK pid
+  rw [h.data] at hy
+  exact h.safe y hy
+
+theorem xEnd : (collect 8 (demuxOf xStream.bytes)).2 = true := by decide +kernel
+
+/-- D2 on PID 0x100: two PES, the first split over three packets -/
+example : pidOut 0x100 (collect 8 (demuxOf xStream.bytes)).1 = chainExp 0 (unitsOn xStream 0x100) :=
+  refmux_pes_pid _ xStream xStream_wf xStreamOK.first xSafe 0x100 (by rw [xPmR]; exact ⟨by decide, by decide +kernel⟩)
+    (by
+      intro u hu
+      have : u = xPesA ∨ u = xPesB := by
+        simpa [unitsOn, xStream, xPAT, C02b.exTS, xPesA, xPMT, xPesC, xTOT, xPesB] using hu
+      rcases this with rfl | rfl
+      · exact xPesA_pes
+      · exact xPesB_pes) 8 xEnd
+
+/-- D3 on PID 0 (two-section PAT in four packets) and on the PMT PID 0x1000 (first chunk = pointer_field alone) -/
+example : pidOut 0 (collect 8 (demuxOf xStream.bytes)).1 = chainExp 0 (unitsOn xStream 0) :=
+  refmux_table_pid _ xStream xStream_wf xStreamOK.first xSafe 0 rfl (by decide)
+    (by
+      intro u hu
+      have : u = xPAT := by simpa [unitsOn, xStream, xPAT, C02b.exTS, xPesA, xPMT, xPesC, xTOT, xPesB] using hu
+      subst this; exact xPAT_table)
+    (by
+      intro u hu
+      have : u = xPAT := by simpa [unitsOn, xStream, xPAT, C02b.exTS, xPesA, xPMT, xPesC, xTOT, xPesB] using hu
+      subst this; rw [xPmR]; exact xPAT_safe) 8 xEnd
+
+example : pidOut 0x1000 (collect 8 (demuxOf xStream.bytes)).1 = chainExp 0 (unitsOn xStream 0x1000) :=
+  refmux_table_pid _ xStream xStream_wf xStreamOK.first xSafe 0x1000 (by rw [xPmR]; decide +kernel) (by decide)
+    (by
+      intro u hu
+      have : u = xPMT := by simpa [unitsOn, xStream, xPAT, C02b.exTS, xPesA, xPMT, xPesC, xTOT, xPesB] using hu
+      subst this; exact xPMT_table)
+    (by
+      intro u hu
+      have : u = xPMT := by simpa [unitsOn, xStream, xPAT, C02b.exTS, xPesA, xPMT, xPesC, xTOT, xPesB] using hu
+      subst this
+      intro y hy pat hp
+      simp only [xPMT, List.mem_cons, List.not_mem_nil, or_false] at hy
+      subst hy; cases hp) 8 xEnd
+
+/-- D4 on PID 0x14: the TOT, delivered by the end-of-stream drain -/
+example : pidOut 0x14 (collect 8 (demuxOf xStream.bytes)).1 = chainExp 0 (unitsOn xStream 0x14) :=
+  refmux_si_pid _ xStream xStream_wf xStreamOK.first xSafe 0x14 (by rw [xPmR]; decide +kernel) (by rw [xPmR]; decide +kernel)
+    (by decide)
+    (by
+      intro u hu
+      have : u = xTOT := by simpa [unitsOn, xStream, xPAT, C02b.exTS, xPesA, xPMT, xPesC, xTOT, xPesB] using hu
+      subst this; exact ⟨1, 2, [xTotSec], xTOT_si⟩)
+    (by
+      intro u hu
+      have : u = xTOT := by simpa [unitsOn, xStream, xPAT, C02b.exTS, xPesA, xPMT, xPesC, xTOT, xPesB] using hu
+      subst this
+      intro y hy
+      simp only [xTOT, List.mem_cons, List.not_mem_nil, or_false] at hy
+      subst hy; rfl) 8 xEnd
+
+/-! #### the excluded points, evaluated
+
+* (no longer excluded) a discontinuity announced by the first packet of a unit: `xPesB` above does, and is delivered —
+  fix F14 of `packetAccumulator.add`; `Proofs/RefMuxDelivers/UnitsDI.lean` redoes the chain lemmas for such units.
+* `pes_unit_of_reference` covers `pesEncode h 0 payload` with the PES_packet_length the writer computes.  `PESUnit` itself only
+  asks that the payload parses as a PES packet to the expected datum; for header stuffing (`pesEncode h st payload`, `st > 0`,
+  `HeaderLength` counting the stuffing) and for PES_packet_length 0 on a non-video stream a reader-side theorem
+  `parsePESData.val (pesEncode h st payload) = .ok ⟨payload, h⟩` is what is missing (C12 proves the writer image only).
+  Evaluated: 3 bytes of header stuffing and PES_packet_length 0 on an audio stream are delivered as expected.
+* `TableUnit.tail` bounds the stuffing-only tail of a PAT/PMT unit (stuffing + payload padding after the packet with the
+  last section byte) by 256 bytes: a longer tail looks like a complete unit to `isPSIComplete` and is flushed (and
+  parsed to nothing) before the next unit starts, so the flush sequence has another shape.  Evaluated (`xStreamL`, a
+  tail of 368 bytes in two packets): the data delivered are still the expected ones.
+* `TableUnit.cut` (no packet edge at the start of a later section): the excluded stratum of ISO/IEC 13818-1 2.4.4.1, see
+  `C02.inner_boundary_flushes_early`; `StreamWF.sched` (PAT first): see `C07.ex_pmt_before_pat`, a PMT unit read before
+  the PAT that announces its PID can be lost. -/
+
+/-- views of a PES datum used in the checks below: PID and payload; PES_packet_length and header length; counter and
+discontinuity indicator of the first packet -/
+def viewA (d : DemuxerData) : Nat × Option Bytes := (d.pid, d.pes.map (·.data))
+def viewB (d : DemuxerData) : Option (Nat × Option Nat) :=
+  d.pes.map (fun p => (p.header.packetLength, p.header.optionalHeader.map (·.headerLength)))
+def viewC (d : DemuxerData) : Option (Nat × Option Bool) :=
+  d.firstPacket.map (fun p => (p.header.continuityCounter, p.adaptationField.map (·.discontinuityIndicator)))
+
+/-- the two PES of PID 0x100 in `xStream`: the second one's first packet (counter 3) announces a discontinuity -/
+example : (pidOut 0x100 (collect 8 (demuxOf xStream.bytes)).1).map viewC = [some (0, some false), some (3, some true)] ∧
+    (pidOut 0x100 (collect 8 (demuxOf xStream.bytes)).1).map viewB = [some (308, some 5), some (13, some 5)] := by
+  decide +kernel
+
+def xOptS : PESOptionalHeader := { C12.exAudioOpt with headerLength := 8 }
+def xHdrS : PESHeader := { streamID := 0xc0, optionalHeader := some xOptS, packetLength := 0 }
+/-- 3 bytes of PES header stuffing, PES_packet_length 0 -/
+def xPesS : TSUnit :=
+  { pid := 0x100, payload := Spec.pesEncode xHdrS 3 xDataB,
+    data := [{ pes := some { data := xDataB, header := xHdrS } }], psi := false, chunks := [22] }
+def xStreamS : StreamModel := { xStream with units := [xPAT, xPesA, xPMT, xPesC, xTOT, xPesS] }
+
+example : (collect 9 (demuxOf xStreamS.bytes)).2 = true ∧
+    (pidOut 0x100 (collect 9 (demuxOf xStreamS.bytes)).1).map viewA = (chainExp 0 (unitsOn xStreamS 0x100)).map viewA ∧
+    (pidOut 0x100 (collect 9 (demuxOf xStreamS.bytes)).1).map viewB = (chainExp 0 (unitsOn xStreamS 0x100)).map viewB ∧
+    (pidOut 0x100 (collect 9 (demuxOf xStreamS.bytes)).1).map viewB = [some (308, some 5), some (0, some 8)] := by
+  decide +kernel
+
+/-- PMT with 300 stuffing bytes and payload padding: a stuffing-only tail of 368 bytes in two packets -/
+def xPMTlong : TSUnit :=
+  { pid := 0x1000, payload := [0] ++ secBytes xPmtSec ++ List.replicate 300 0xff, data := [{ pmt := some xPmtData }],
+    psi := true, chunks := [27, 184, 116], padPayload := true }
+def xStreamL : StreamModel :=
+  { units := [xPAT, xPesA, xPMTlong, xPesC, xTOT, xPesB, { xPMT with chunks := [29] }],
+    schedule := [0, 0, 0, 0, 0x100, 0x1000, 0x101, 0x100, 0x14, 0x1000, 0x100, 0x101, 0x1000, 0x100, 0x1000] }
+
+example : (collect 12 (demuxOf xStreamL.bytes)).2 = true ∧
+    (collect 12 (demuxOf xStreamL.bytes)).1.map (fun r => match r with | .ok x => x.pid | _ => 99999) =
+      [0, 0, 0x1000, 0x100, 0x1000, 0x14, 0x100, 0x101] ∧
+    (expectedList xStreamL).map (fun e => (e.1, e.2.length)) = [(0, 2), (0x100, 2), (0x1000, 2), (0x101, 1), (0x14, 1)] ∧
+    (pidOut 0x1000 (collect 12 (demuxOf xStreamL.bytes)).1).map (fun d => d.pmt.map (·.programNumber)) =
+      (chainExp 0 (unitsOn xStreamL 0x1000)).map (fun d => d.pmt.map (·.programNumber)) := by
+  decide +kernel
+
+end WholeStream
 
 end Astits.C02b
